@@ -85,6 +85,7 @@ func Run(repo, out string) (Facts, []string) {
 	os.MkdirAll(out, 0o755)
 	g.cli()
 	g.peg()
+	g.templates()
 	keys := make([]string, 0, len(g.facts))
 	for k := range g.facts {
 		keys = append(keys, k)
